@@ -145,3 +145,32 @@ def _(self, strategy: Ref("BaseStrategy"), lookup: Tup(ATOM, INT, REAL), exclusi
             + sum_(lambda j: sp_win(order_at(sel_view(self, strategy, lookup), new_order, j), exclusion), 0, n_orders(sel_view(self, strategy, lookup), new_order)))
     ensures("worst_on_lose", result["worst_possible_profit_on_lose"] == result["matched_profit_if_lose"] + result["worst_potential_unmatched_profit_if_lose"]
             + sum_(lambda j: sp_lose(order_at(sel_view(self, strategy, lookup), new_order, j), exclusion), 0, n_orders(sel_view(self, strategy, lookup), new_order)))
+
+
+def n_all(view):
+    return len(view)
+
+
+def wp_win(blotter, strategy, lookup, exclusion, new_order):
+    """worst-case profit if the selection wins, as get_exposures reports it (two separately rounded sums + SP liabilities)"""
+    return (round(sum_(lambda j: mb_win(order_at(sel_view(blotter, strategy, lookup), new_order, j), exclusion), 0, n_orders(sel_view(blotter, strategy, lookup), new_order))
+                  + sum_(lambda j: ml_win(order_at(sel_view(blotter, strategy, lookup), new_order, j), exclusion), 0, n_orders(sel_view(blotter, strategy, lookup), new_order)), 2)
+            + round(sum_(lambda j: ul_win(order_at(sel_view(blotter, strategy, lookup), new_order, j), exclusion), 0, n_orders(sel_view(blotter, strategy, lookup), new_order)), 2)
+            + sum_(lambda j: sp_win(order_at(sel_view(blotter, strategy, lookup), new_order, j), exclusion), 0, n_orders(sel_view(blotter, strategy, lookup), new_order)))
+
+
+def wp_lose(blotter, strategy, lookup, exclusion, new_order):
+    return (round(sum_(lambda j: ml_lose(order_at(sel_view(blotter, strategy, lookup), new_order, j), exclusion), 0, n_orders(sel_view(blotter, strategy, lookup), new_order))
+                  + sum_(lambda j: mb_lose(order_at(sel_view(blotter, strategy, lookup), new_order, j), exclusion), 0, n_orders(sel_view(blotter, strategy, lookup), new_order)), 2)
+            + round(sum_(lambda j: ub_lose(order_at(sel_view(blotter, strategy, lookup), new_order, j), exclusion), 0, n_orders(sel_view(blotter, strategy, lookup), new_order)), 2)
+            + sum_(lambda j: sp_lose(order_at(sel_view(blotter, strategy, lookup), new_order, j), exclusion), 0, n_orders(sel_view(blotter, strategy, lookup), new_order)))
+
+
+@contract("flumine/markets/blotter.py::Blotter.selection_exposure", tags=["C16"])
+def _(self, strategy: Ref("BaseStrategy"), lookup: Tup(ATOM, INT, REAL)) -> REAL:
+    requires("view_exists", (strategy, lookup[1], lookup[2]) in self._strategy_selection_orders)
+    requires("known_order_types", forall(lambda j: order_ok(sel_view(self, strategy, lookup)[j]), 0, len(sel_view(self, strategy, lookup))))
+    ensures("worst_case_loss_or_zero",
+            result == (-wp_win(self, strategy, lookup, None, None) if wp_win(self, strategy, lookup, None, None) < wp_lose(self, strategy, lookup, None, None)
+                       else -wp_lose(self, strategy, lookup, None, None))
+            if (wp_win(self, strategy, lookup, None, None) < 0 or wp_lose(self, strategy, lookup, None, None) < 0) else result == 0)
